@@ -143,7 +143,10 @@ TrFinal ==
     /\ IF Ev.phase = "begin"
        THEN /\ finalActive' = ~stale /\ Note(Expired(Ev.t)) /\ ClearExpired(Ev.t) /\ UNCHANGED good
        ELSE /\ Note(IF finalActive /\ ~(Ev.ok /\ Ev.filesOK) THEN "C04.L6" ELSE "")
-            /\ finalActive' = FALSE /\ good' = SetOf(Ev.good) /\ UNCHANGED <<stopDue, startDue, verifyDue>>
+            \* `good` is NOT re-read here: the torrent is running, so the harness' classification of the store is not atomic with
+            \* this line's position in the trace (a piece written between the classification and the emit would be lost); the
+            \* writes themselves (TrWrite) keep `good` exact while the torrent runs
+            /\ finalActive' = FALSE /\ UNCHANGED <<good, stopDue, startDue, verifyDue>>
     /\ l' = l + 1 /\ KeepCfg
     /\ UNCHANGED <<status, have, stale, peers, downloads, files, doVerify, vphase>>
 
